@@ -62,10 +62,14 @@ def run(rep, rng, tier):
         cl.append(Case('(%s, %s, %s)' % (qlist(xs), qlist(cv), natlist(nzi)), {'function': site, 'args': args, 'impl': [cv, nzi]}, site,
                        nontrivial=nontrivial(xs), klass=site + '/pipeline'))
 
-    def add_peaks(xs, pt, exact_int=True):
-        r = core.guarded_pure(get_peak_array_indices, np.array(xs, dtype=float), ptype=PT[pt])
+    def add_peaks(xs, pt, exact_int=True, store=float):
+        # store: the numpy dtype the caller keeps the record in (raw digitiser counts are int16/int32): same numbers, same peaks
+        r = core.guarded_pure(get_peak_array_indices, np.array(xs, dtype=store), ptype=PT[pt])
         args = {'values': list(map(float, xs)), 'ptype': PT[pt]}
         site = 'get_peak_array_indices[%s]' % PT[pt]
+        if store is not float:
+            site += '[%s record]' % np.dtype(store).name
+            args['stored_as'] = np.dtype(store).name
         if isinstance(r, ImplError):
             rep.violation(site, {'function': site, 'args': args, 'impl_error': str(r)})
             return
@@ -127,6 +131,18 @@ def run(rep, rng, tier):
         if len(set(xs)) == 1:
             continue
         add_peaks(list(xs), k % 3, exact_int=False)
+    # records kept in a narrow integer dtype with swings near the dtype's range (products/differences of counts do not fit
+    # the storage type), and in float32
+    for k in range(60 if tier == 'quick' else 600):
+        store = [np.int16, np.int32, np.int64, np.float32][k % 4]
+        top = {np.int16: 30000, np.int32: 2000000000, np.int64: 3000000000, np.float32: 2 ** 20}[store]
+        n = gens.small_len(rng, 3, 40)
+        base = gens.plateau_series(rng, n, levels=rng.choice([2, 5]), p_flat=rng.choice([0.2, 0.5]), offset=0)
+        m = max(1, max(abs(v) for v in base))
+        xs = [int(v) * (top // int(m)) for v in base]
+        if len(set(xs)) == 1:
+            continue
+        add_peaks(xs, k % 3, store=store)
     rep.extra['exhaustive'] = True
     rep.extra['exhaustive_space'] = 'non-constant series over {-2..2}, length 2..%d (ptype all); ..%d (max/min); ..%d (n_cyc)' % (L, L - 1, L - 2)
     rep.correspond('model.K_peaks', 'chk_peaks', pk, max_cases=4000)
